@@ -42,6 +42,7 @@ type Member struct {
 	IsInt    bool   `json:"isInt"`
 	Int      int64  `json:"int"`
 	Str      string `json:"str"` // string value of a string constant
+	Pkg      string `json:"pkg,omitempty"` // package declaring the constant (may differ from the type's)
 }
 
 type Comment struct {
@@ -203,6 +204,9 @@ func (d *dumper) decl(q string, node an.Type) {
 		out.IsIota = t.IsIota
 		for _, m := range t.Members {
 			mm := Member{Name: m.Const.Name(), Val: m.Const.Val().ExactString(), ValStr: m.Const.Val().String(), Comment: m.Comment, Exported: m.Const.Exported()}
+			if m.Const.Pkg() != nil {
+				mm.Pkg = m.Const.Pkg().Path()
+			}
 			if v, ok := constInt(m); ok {
 				mm.IsInt, mm.Int = true, v
 			}
